@@ -33,7 +33,7 @@ PROPS = {
         assumptions=["Enqueue precondition: supplied keys match the supplied prefix (checked at the call sites by C17)"],
     ),
     "C07": dict(
-        pkg="records", test="TestVerifC07", model="C07", level="proof", diff_is_failure=True,
+        pkg="records", test="TestVerifC07", model="C07", level="proof", diff_is_failure=True, also=["C09"],
         rule="a case is a history of add/get/clock-advance/gc-sweep/restart/close ops on a real ProviderManager "
              "(virtual clock, injected LRU of capacity 1-4, more keys than capacity); after every op the provider set, "
              "the LRU key order and (on 'disk') the datastore content are compared with the model; non-trivial = the "
@@ -41,6 +41,7 @@ PROPS = {
         trusted=["go-datastore MapDatastore query/prefix semantics", "hashicorp simplelru", "testing/synctest virtual clock"],
         assumptions=["collectExpired is modelled as one atomic sweep (the documented re-add/sweep race is excluded)"],
         shards={"quick": 8, "thorough": 16},
+        timeout={"quick": 120, "thorough": 1200},
     ),
     "C09": dict(
         pkg=".", test="TestVerifC09", model="C09", verdict="C09v", level="proof", also=["C13"],
@@ -241,9 +242,10 @@ PROPS = {
         rule="a case is a multi-cycle history on a real SweepingProvider (optionally behind the buffered wrapper; worker configurations "
              "default/1/2/8; replication factor 2-4) in virtual time over a simulated swarm of 3-32 peers with a closest-peers router and a "
              "recording sender: start (forced or not) / stop / provide-once, batches of such operations issued back to back, swarm growth "
-             "and shrinkage, outages with work issued meanwhile, restarts on the same datastore, and windows of one or two reprovide "
-             "intervals plus the allowed delay; compared: the keys the keystore holds after every line (reprovide-set model); monitored on "
-             "the sender's log: every kept key re-advertised to all its r nearest peers in every online window, provided keys advertised "
+             "and shrinkage, outages with work issued meanwhile, restarts on the same datastore at arbitrary moments of the cycle, single "
+             "keys started at arbitrary moments, and windows of one or two reprovide intervals plus the allowed delay; compared: the keys the keystore holds after every line (reprovide-set model); monitored on "
+             "the sender's log: every kept key re-advertised to all its r nearest peers in every online window, in strict scenarios no two consecutive "
+             "advertisements of a kept key more than interval + delay + 300 s apart (virtual send instants), provided keys advertised "
              "at once, stopped and provide-once keys absent from later windows, payload = local peer + current address; non-trivial = "
              "every case; distinct = case text",
         trusted=["synctest virtual time; fake closest-peers router that answers with the true nearest peers of the current swarm; recording message sender"],
@@ -255,7 +257,7 @@ PROPS = {
     "C14": dict(
         pkg=".", test="TestVerifC14", model="C14", verdict="C14v", level="other", diff_is_failure=False, stateless=True,
         accept=lambda m, o: m == "-" or m == o,
-        also=["C14d", "C14f", "C14p", "C14k", "C20", "C12r"],
+        also=["C14d", "C14f", "C14p", "C14k", "C20", "C12r", "C07"],
         rule="a case builds a component in a synctest bubble, starts 1-3 operations (closest peers / get / search / put / provide / find "
              "providers / forced refresh) on a scripted network, answers 0-11 of their requests, then calls Close (once or twice "
              "concurrently) while the rest is outstanding; or makes a constructor fail after it has started background work. Required: "
